@@ -323,7 +323,7 @@ func (e *Engine) packageRule(fr *frame, fn *ssa.Function, args []Value, g *Term,
 	case "github.com/enfein/mieru/v3/pkg/log", "log":
 		if strings.HasPrefix(fn.Name(), "Fatal") || strings.HasPrefix(fn.Name(), "Panic") {
 			e.oblige("panic", "process exit via "+fn.String(), g, pos, fr.fn.String())
-			e.assume(Not(g))
+			e.assumeFact(Not(g))
 			return nil, true
 		}
 		e.stubLog["skip:"+path]++
@@ -398,5 +398,144 @@ func init() {
 		arr := e.ufBytes("pbkdf2."+s1+"."+s2, int(klen.val), all)
 		o := newObject("pbkdf2key", types.NewArray(types.Typ[types.Uint8], int64(klen.val)), arr)
 		return &SliceV{Arr: ptrTo(o), Off: c64(0), Len: klen, Cap: klen}
+	}
+}
+
+// opaque constructors: return a pointer to a zero object of the result type;
+// the object's methods are not modelled (using one is reported as unsupported
+// by whatever the real body then needs).
+func init() {
+	for _, n := range []string{"regexp.MustCompile"} {
+		intrinsics[n] = func(e *Engine, fr *frame, fn *ssa.Function, args []Value, g *Term, pos token.Pos) Value {
+			rt := fn.Signature.Results().At(0).Type().(*types.Pointer).Elem()
+			return ptrTo(newObject("opaque:"+fn.String(), rt, zeroValue(rt)))
+		}
+	}
+}
+
+// ---- sync.Map: a plain map keyed by interface values (atomicity assumed) ----
+
+func (e *Engine) syncMapOf(p *PtrV) *MapData {
+	if len(p.T) != 1 || !p.T[0].G.IsTrue() {
+		panic(unsupported("sync.Map reached through an ambiguous pointer"))
+	}
+	k := fmt.Sprintf("%d%s", p.T[0].Obj.id, pathStr(p.T[0].Path))
+	if e.syncMaps == nil {
+		e.syncMaps = map[string]*MapData{}
+	}
+	md, ok := e.syncMaps[k]
+	if !ok {
+		anyT := types.NewInterfaceType(nil, nil)
+		md = &MapData{keyT: anyT, valT: anyT}
+		e.syncMaps[k] = md
+	}
+	return md
+}
+
+func init() {
+	intrinsics["(*sync.Map).Load"] = func(e *Engine, fr *frame, fn *ssa.Function, args []Value, g *Term, pos token.Pos) Value {
+		md := e.syncMapOf(args[0].(*PtrV))
+		v, f := e.mapLookupData(md, args[1])
+		return &StructV{F: []Value{v, f}}
+	}
+	intrinsics["(*sync.Map).Store"] = func(e *Engine, fr *frame, fn *ssa.Function, args []Value, g *Term, pos token.Pos) Value {
+		md := e.syncMapOf(args[0].(*PtrV))
+		o := &Object{mp: md}
+		e.mapUpdate(fr, &MapV{T: []PtrTarget{{G: tTrue, Obj: o}}}, args[1], args[2], g, pos)
+		return nil
+	}
+	intrinsics["(*sync.Map).LoadOrStore"] = func(e *Engine, fr *frame, fn *ssa.Function, args []Value, g *Term, pos token.Pos) Value {
+		md := e.syncMapOf(args[0].(*PtrV))
+		v, f := e.mapLookupData(md, args[1])
+		o := &Object{mp: md}
+		e.mapUpdate(fr, &MapV{T: []PtrTarget{{G: tTrue, Obj: o}}}, args[1], args[2], And(g, Not(f)), pos)
+		return &StructV{F: []Value{merge(f, v, args[2]), f}}
+	}
+	intrinsics["(*sync.Map).Delete"] = func(e *Engine, fr *frame, fn *ssa.Function, args []Value, g *Term, pos token.Pos) Value {
+		md := e.syncMapOf(args[0].(*PtrV))
+		o := &Object{mp: md}
+		e.mapDelete(fr, &MapV{T: []PtrTarget{{G: tTrue, Obj: o}}}, args[1], g)
+		return nil
+	}
+	intrinsics["(*sync.Map).LoadAndDelete"] = func(e *Engine, fr *frame, fn *ssa.Function, args []Value, g *Term, pos token.Pos) Value {
+		md := e.syncMapOf(args[0].(*PtrV))
+		v, f := e.mapLookupData(md, args[1])
+		o := &Object{mp: md}
+		e.mapDelete(fr, &MapV{T: []PtrTarget{{G: tTrue, Obj: o}}}, args[1], g)
+		return &StructV{F: []Value{v, f}}
+	}
+	intrinsics["(*sync.Map).Range"] = func(e *Engine, fr *frame, fn *ssa.Function, args []Value, g *Term, pos token.Pos) Value {
+		md := e.syncMapOf(args[0].(*PtrV))
+		fv := args[1].(*FuncV)
+		cont := tTrue
+		snapshot := append([]MapEntry{}, md.entries...)
+		for _, en := range snapshot {
+			eg := And(g, en.G, cont)
+			if eg.IsFalse() {
+				continue
+			}
+			var r Value
+			for _, al := range fv.A {
+				r = e.invokeFn(fr, al.Fn, []Value{en.Key, en.Val}, al.Binds, And(eg, al.G), pos)
+			}
+			if rt, ok := r.(*Term); ok {
+				cont = And(cont, Or(Not(And(en.G)), rt))
+			}
+		}
+		return nil
+	}
+}
+
+func init() {
+	intrinsics["hash/maphash.MakeSeed"] = func(e *Engine, fr *frame, fn *ssa.Function, args []Value, g *Term, pos token.Pos) Value {
+		return &StructV{F: []Value{e.newNondet("maphash.seed", "bv", 64, BV(64), 0)}}
+	}
+	intrinsics["hash/maphash.Bytes"] = func(e *Engine, fr *frame, fn *ssa.Function, args []Value, g *Term, pos token.Pos) Value {
+		seed := args[0].(*StructV).F[0].(*Term)
+		ts, shape := e.bytesAsArgs(args[1].(*SliceV))
+		return Apply("maphash."+shape, BV(64), append([]*Term{seed}, ts...)...)
+	}
+	intrinsics["hash/maphash.String"] = func(e *Engine, fr *frame, fn *ssa.Function, args []Value, g *Term, pos token.Pos) Value {
+		seed := args[0].(*StructV).F[0].(*Term)
+		s := args[1].(*StrV)
+		return Apply("maphash.str", BV(64), seed, s.Data, s.Len)
+	}
+}
+
+// ---- pkg/rng: range contracts (the floating-point scaleDown path is not analysed) ----
+func init() {
+	rngIntn := func(e *Engine, fr *frame, fn *ssa.Function, args []Value, g *Term, pos token.Pos) Value {
+		n := args[0].(*Term)
+		w := n.W()
+		e.panicIf(fr, g, Slt(n, Const(w, 0)), "rng.Intn: negative argument (math/rand.Intn panics)", pos)
+		v := e.newNondet("rng.Intn", "bv", w, BV(w), 0)
+		e.assume(Implies(g, And(Sge(v, Const(w, 0)), Or(Slt(v, n), And(Eq(n, Const(w, 0)), Eq(v, Const(w, 0)))))))
+		return v
+	}
+	intrinsics["github.com/enfein/mieru/v3/pkg/rng.Intn"] = rngIntn
+	intrinsics["github.com/enfein/mieru/v3/pkg/rng.Int63n"] = rngIntn
+	fixed := func(kind string) intrinsic {
+		return func(e *Engine, fr *frame, fn *ssa.Function, args []Value, g *Term, pos token.Pos) Value {
+			n := args[0].(*Term)
+			var seed *Term
+			if len(args) > 1 {
+				h := args[1].(*StrV)
+				if cs, ok := h.concrete(); ok {
+					seed = Apply(fmt.Sprintf("%s.%x", kind, cs), BV(64))
+				} else {
+					seed = Apply(kind+".sym", BV(64), h.Data, h.Len)
+				}
+			} else {
+				seed = Apply(kind+".host", BV(64))
+			}
+			v := Zext(Extract(seed, 30, 0), 33) // 31-bit non-negative value
+			return Ite(Sle(n, c64(0)), c64(0), URem(v, n))
+		}
+	}
+	intrinsics["github.com/enfein/mieru/v3/pkg/rng.FixedInt"] = fixed("fixedint")
+	intrinsics["github.com/enfein/mieru/v3/pkg/rng.FixedIntV"] = fixed("fixedintv")
+	intrinsics["github.com/enfein/mieru/v3/pkg/rng.FixedIntVH"] = fixed("fixedintvh")
+	intrinsics["os.Hostname"] = func(e *Engine, fr *frame, fn *ssa.Function, args []Value, g *Term, pos token.Pos) Value {
+		return &StructV{F: []Value{e.opaqueString("hostname"), &IfaceV{}}}
 	}
 }
